@@ -33,7 +33,7 @@ def make_resolver_class(table):
     return SimResolver
 
 
-def run_app(argv, table, before_run=None, log_path=None, stall_watch=None):
+def run_app(argv, table, before_run=None, log_path=None, stall_watch=None, tty=False):
     '''Returns dict(exit_status, crashed(bool), log_text).
 
     stall_watch = (progress function, seconds): a crawl that shows no progress (the function's value does not change) for
@@ -51,6 +51,12 @@ def run_app(argv, table, before_run=None, log_path=None, stall_watch=None):
     handler.setLevel(logging.WARNING)
     root.addHandler(handler)
     result = {'exit_status': None, 'exception': None}
+    saved_stdout = sys.stdout
+    if tty:
+        # the application prints progress to its error stream (standard output under unit_test); a terminal-like stream
+        # there selects the progress bar
+        from harness.listeners import TtyStream
+        sys.stdout = TtyStream()
     try:
         args = AppArgumentParser().parse_args(argv)
         builder = Builder(args, unit_test=True)
@@ -86,6 +92,7 @@ def run_app(argv, table, before_run=None, log_path=None, stall_watch=None):
         except BaseException as e:  # noqa
             result['exception'] = '{}: {}'.format(type(e).__name__, e)
     finally:
+        sys.stdout = saved_stdout
         for h in list(root.handlers):
             if h not in saved_handlers:
                 root.removeHandler(h)
